@@ -283,10 +283,13 @@ def address_reuse_sweep(chk: Check, n_pairs: int) -> None:
     pairs = []
     for a in sorted(ctx.twins):
         if a in small:
+            for t in ctx.twins[a]:
+                if t[0] in "xy":
+                    pairs.append((a, t))  # every index revision of a contract
             pairs.append((a, rng.choice(ctx.twins[a])))
     rng.shuffle(pairs)
     # revisions that differ in a constant group index first (x### twins), then other twins
-    pairs = sorted(pairs, key=lambda ab: 0 if (ab[0][0] == "x" or ab[1][0] == "x") and ab[0][0] != "x" else 1)
+    pairs = sorted(pairs, key=lambda ab: 0 if (ab[0][0] in "xy" or ab[1][0] in "xy") and ab[0][0] not in "xy" else 1)
     pairs = pairs[: (n_pairs * 3) // 4]
     while len(pairs) < n_pairs and len(gt) >= 2:
         a, b = rng.sample(gt, 2)
@@ -297,7 +300,7 @@ def address_reuse_sweep(chk: Check, n_pairs: int) -> None:
     for a, b in pairs:
         # stale entries accumulate over the rounds, so many rounds in one interpreter are worth more
         # than many interpreters; most for the revisions that differ in a constant group index
-        if a[0] == "x" or b[0] == "x":
+        if a[0] in "xy" or b[0] in "xy":
             rounds = 16 if chk.tier == "quick" else 48
         else:
             rounds = 5 if chk.tier == "quick" else 16
